@@ -185,6 +185,50 @@ def check(ctx, run):
         run.oblige("C19.R4", f"{mq.split('.')[-1]}.implied_volatility", ok, "")
         if not ok:
             run.fail(Finding("C19.R4", iv.qualname, "find_implied_volatility(self.price, price=price, <own parameters>, precision=precision)", "the module must invert its own price with all its parameters", file=str(prog.modules[iv.module].path), line=iv.node.lineno))
+    # a module created from a derivative: implied_volatility() and price() must resolve the parameters the caller left out the same way -
+    # what implied_volatility hands on is either left open (the pricer resolves it itself) or the value price() would use
+    for mq in ("european.BSEuropeanOption", "european_binary.BSEuropeanBinaryOption", "american_binary.BSAmericanBinaryOption", "lookback.BSLookbackOption"):
+        cq = MOD + mq
+        iv, pm = prog.lookup_method(cq, "implied_volatility"), prog.lookup_method(cq, "price")
+        if pm is None:
+            raise AnalysisError(f"anchor vanished: {cq}.price")
+        names = [a.arg for a in iv.node.args.args[1:]]
+        d = W.option()
+        probe = Obj(cq, "bs", {"derivative": d, "strike": W.fl("bs.strike"), "call": Sym("bs.call", ("bool",))})
+        kw = {n: (W.fl(n) if n == "precision" else W.tensor(n) if n == "price" else None) for n in names}
+        try:
+            resm = [r2 for r2 in interp.explore(iv, [], kw, self_obj=probe, max_paths=50) if not r2["raises"]]
+            resp = [r2 for r2 in interp.explore(pm, [], {}, self_obj=probe, max_paths=50) if not r2["raises"]]
+        except Unsupported as ex:
+            raise AnalysisError(f"{cq} bound to a derivative: {ex}")
+        if not resm or not resp:
+            raise AnalysisError(f"{cq} bound to a derivative: no analysable path")
+        used = {}
+        for r2 in resp:
+            for e in r2["events"]:
+                if e["kind"] == "call" and e["callee"].startswith(B.F + "bs_") and e["callee"].endswith("_price"):
+                    params_ = [a.arg for a in prog.functions[e["callee"]].node.args.args]
+                    kwp = dict(e["kwargs"])
+                    for k_, v_ in zip(params_, e["args"]):
+                        kwp[k_] = v_
+                    for k_, v_ in kwp.items():
+                        used.setdefault(k_, []).append(v_)
+        if not used:
+            raise AnalysisError(f"{cq}.price bound to a derivative: the closed form it evaluates was not found")
+        bad = []
+        for r2 in resm:
+            for e in r2["events"]:
+                if e["kind"] == "call" and e["callee"].endswith("find_implied_volatility") and e["fn"].endswith(".implied_volatility"):
+                    for k_, v_ in e["kwargs"].items():
+                        if k_ in ("price", "precision", "pricer") or v_ is None or k_ not in used:
+                            continue
+                        if not all(v_ == u_ for u_ in used[k_]):
+                            bad.append(f"{k_}: implied_volatility hands on {str(v_)[:60]}, price() evaluates {str(used[k_][0])[:60]}")
+        bad = sorted(set(bad))
+        run.oblige("C19.R4", f"{mq.split('.')[-1]} created from a derivative: implied_volatility inverts the price() of the same state", not bad, "; ".join(bad))
+        if bad:
+            run.fail(Finding("C19.R4", iv.qualname, "; ".join(bad)[:300], "the bisection inverts the pricing formula of another state than the one price() evaluates: "
+                             "implied_volatility(price()) does not return the generating volatility", file=str(prog.modules[iv.module].path), line=iv.node.lineno, case="derivative-bound"))
     # ---- R5
     term, _, _ = B.extract(prog, interp, "bs_european_vega", None)
     bad = []
@@ -284,3 +328,33 @@ def where_parts(v, end):
     if ast.unparse(other) != "m" or not (isinstance(c, ast.Compare) and len(c.ops) == 1):
         return None
     return type(c.ops[0]).__name__, ast.unparse(c.left), ast.unparse(c.comparators[0])
+
+
+_check_main = check
+
+
+def check(ctx, run):  # noqa: F811
+    """R8: the function the bisection inverts is evaluated at the precision of its inputs - a closed form that drops to float32 on the way is a
+    step function of the volatility at float32 resolution, and no bracket narrower than a step can be located to the requested precision."""
+    _check_main(ctx, run)
+    from ..precision import closed_form_precision_rule
+    run.require("C19.R8", 6)
+    closed_form_precision_rule(ctx, run, "C19.R8", ["ncdf", "npdf", "d1", "d2", "bs_european_price", "bs_european_binary_price", "bs_american_binary_price", "bs_lookback_price"],
+                               "the inverted price is computed in the dtype of its inputs")
+    # the bracket ends and the midpoint stay in the dtype of the target
+    from ..dtypes import DATA, Provenance
+    prog, interp = ctx.prog, ctx.interp
+    bis = prog.functions["pfhedge._utils.bisect.bisect"]
+    fn, tg, lo, hi = Sym("fn", ("callable",)), W.tensor("target"), W.tensor("lo"), W.tensor("hi")
+    res = [r for r in interp.explore(bis, [], dict(fn=fn, target=tg, lower=lo, upper=hi, precision=W.fl("precision"), max_iter=W.integer("max_iter"))) if not r["raises"]]
+    bad = []
+    for r in res:
+        pv = Provenance()
+        got = pv.of(r["value"])
+        if got != DATA:
+            bad.append(f"the returned end has a {got} dtype ({'; '.join(sorted({w for _, w in pv.leaves}))})")
+        bad += [f"{str(t.args[0])[:80]} is computed in a {v} dtype and converted afterwards" for t, v in pv.narrowed]
+    bad = sorted(set(bad))
+    run.oblige("C19.R8", "bisect: the bracket is carried in the dtype of its ends", not bad, "; ".join(bad))
+    if bad:
+        run.fail(Finding("C19.R8", bis.qualname, "; ".join(bad)[:300], "the bracket is narrowed at another precision than the one of the inputs", file=str(prog.modules[bis.module].path), line=bis.node.lineno))
